@@ -48,7 +48,14 @@ pub fn gen_case(rng: &mut Rng, faults: bool) -> CliCase {
             InState::Present(b)
         }
         78..=83 => InState::Present(rng.pick(&[&b""[..], &b" \n"[..], &b"<?xml version=\"1.0\"?>"[..], &b"<!-- only a comment -->"[..], &b"plain text"[..]]).to_vec()),
-        84..=91 => InState::Missing,
+        84..=85 => {
+            // the same document through a named pipe (read-once input, like `/dev/stdin` fed by another program)
+            let mut cfg = GenCfg::draw(rng, false);
+            cfg.max_elems = 12;
+            let (_s, docs) = super::gen_history(rng, &cfg, 1);
+            InState::Fifo(docs[0].ser())
+        }
+        86..=91 => InState::Missing,
         92..=95 => InState::Directory,
         _ => InState::Present(base_document(rng)),
     };
@@ -128,7 +135,10 @@ pub fn gen_case(rng: &mut Rng, faults: bool) -> CliCase {
 /// Ok(Some(text)) = the library accepts the input and this is header + rendering; Ok(None) = the input is at
 /// fault (missing, directory, not UTF-8, rejected by the parser); Err = entropy-sensitive rendering (C05's business)
 pub fn expected_text(case: &CliCase) -> Result<Option<String>, String> {
-    let InState::Present(bytes) = &case.input else { return Ok(None) };
+    let bytes = match &case.input {
+        InState::Present(b) | InState::Fifo(b) => b,
+        _ => return Ok(None),
+    };
     let Ok(text) = String::from_utf8(bytes.clone()) else { return Ok(None) };
     let opt = RenderOpt::preset(case.serde_xml_rs, case.by_name, case.derive.as_deref().unwrap_or("Serialize, Deserialize"));
     let mut outs: Vec<Option<String>> = Vec::new();
@@ -331,6 +341,39 @@ pub fn exec_case(case: &CliCase, ctr: &mut Ctr) -> Result<Exec, String> {
                     class: "process_twin_differs".into(),
                     detail: format!("two processes with different hash entropy produced different results:\n{}\n---\n{}", String::from_utf8_lossy(&out.stdout), String::from_utf8_lossy(&out2.stdout)),
                 });
+            }
+        }
+    }
+    // environment variables the program was seen to read are inputs: set them and demand the same outcome.
+    // (clap asks for its colour switches on every run; those are exercised on a tenth of the cases.)
+    if violation.is_none() && case.plan.is_empty() {
+        const CLAP: &[&str] = &["CLICOLOR", "CLICOLOR_FORCE", "NO_COLOR", "TERM", "COLUMNS", "LINES"];
+        let unusual: Vec<&String> = f.getenv.iter().filter(|n| !CLAP.contains(&n.as_str())).collect();
+        for n in &unusual {
+            bump(ctr, &format!("reach.cli_read_environment_variable.{n}"));
+        }
+        let mut fpx = Fnv::new();
+        fpx.str(&case.to_j().to_string());
+        if !f.getenv.is_empty() && (!unusual.is_empty() || fpx.0 % 10 == 0) {
+            for val in ["1", "/"] {
+                let env: Vec<(String, String)> = f.getenv.iter().map(|n| (n.clone(), val.to_string())).collect();
+                let o2 = crate::cli::run_cli_env(case, case.entropy, &sb, expected.as_deref(), &env)?;
+                bump(ctr, "fault.rerun_with_read_environment_variables_set");
+                if o2.exit != out.exit || o2.stdout != out.stdout || o2.after.bytes != out.after.bytes {
+                    violation = Some(Violation {
+                        class: "outcome_depends_on_environment_variable".into(),
+                        detail: format!(
+                            "with {:?} set to {val:?} the same world gives exit {:?} (was {:?}); stdout/file {} bytes (was {})\nstderr: {}",
+                            f.getenv,
+                            o2.exit,
+                            out.exit,
+                            o2.stdout.len() + o2.after.bytes.len(),
+                            out.stdout.len() + out.after.bytes.len(),
+                            String::from_utf8_lossy(&o2.stderr)
+                        ),
+                    });
+                    break;
+                }
             }
         }
     }
